@@ -211,6 +211,7 @@ type obResult struct {
 func RunCheck(opt Options) int {
 	start := time.Now()
 	repoRoot = opt.Repo
+	curProp = opt.Prop
 	cs := NewContractSet()
 	// contract files in repo
 	files := FindContractFiles(opt.Repo)
@@ -909,6 +910,9 @@ func (v *Verifier) VerifyFunction(fn *ssa.Function, fc *FuncContract) (err error
 	}
 	for _, ax := range v.contracts.axioms {
 		if ax.Scope != "" && ax.Scope != curScope {
+			continue
+		}
+		if len(ax.Props) > 0 && !hasProp(ax.Props, curProp) {
 			continue
 		}
 		ev := &Eval{v: v, st: st, old: st, env: map[string]*Value{}, mode: evalCall, pkg: fnPkg(fn)}
